@@ -335,6 +335,7 @@ static void settle(void) {
 }
 
 static pthread_mutex_t report_mu = PTHREAD_MUTEX_INITIALIZER;
+static void e_report(void);
 static void report_and_exit(int code) {
   if (pthread_mutex_trylock(&report_mu)) { for (;;) pause(); }
   const uint64_t now = vt_now();
@@ -349,6 +350,7 @@ static void report_and_exit(int code) {
     }
     printf("F %d %d %d\n", i, n, atomic_load(&sched_count[i]));
   }
+  e_report();
   printf("END %d\n", code);
   fflush(stdout);
   _exit(code);
@@ -494,6 +496,52 @@ static int scn_c(int argc, char** argv) {
   return 0;
 }
 
+/* scenario e: N sleepers ("however many fibers sleep concurrently or share a wake-up tick").  Virtual time stands still
+ * until every one of them is in the sleeper tree, so they all share one wake tick and become due in one pass of the
+ * wake loop.  Compact accounting (the tables above hold 600 fibers): per sleeper the tick of the call, the tick of the
+ * return and the number of returns; reported as one summary line
+ *   E <N> <returned> <pending> <returned-more-than-once> <min ticks slept> <max ticks slept> <first pending index>    */
+static int e_n;
+static long long e_us;
+static uint32_t *e_tc, *e_tw;
+static unsigned char* e_cnt;
+static void e_report(void) {
+  if (!e_n) return;
+  long ret = 0, twice = 0, first = -1; uint32_t mn = 0xffffffffu, mx = 0;
+  for (int i = 0; i < e_n; ++i) {
+    if (e_cnt[i]) { ++ret; const uint32_t d = e_tw[i] - e_tc[i]; if (d < mn) mn = d; if (d > mx) mx = d; }
+    else if (first < 0) first = i;
+    if (e_cnt[i] > 1) ++twice;
+  }
+  printf("E %d %ld %ld %ld %u %u %ld %lld %llu\n", e_n, ret, e_n - ret, twice, ret ? mn : 0, mx, first, e_us,
+         (unsigned long long)vt_now());
+}
+static void* e_fiber(void* p) {
+  const int i = (int)(intptr_t)p;
+  e_tc[i] = (uint32_t)vt_now();
+  atomic_fetch_add(&started, 1);
+  usleep((useconds_t)e_us);
+  e_tw[i] = (uint32_t)vt_now();
+  if (e_cnt[i] < 250) e_cnt[i]++;
+  return NULL;
+}
+static int scn_e(int argc, char** argv) {
+  const int nthreads = argc > 0 ? atoi(argv[0]) : 1;
+  e_n = argc > 1 ? atoi(argv[1]) : 20000;
+  e_us = argc > 2 ? atoll(argv[2]) : 1000;
+  e_tc = calloc(e_n, sizeof *e_tc); e_tw = calloc(e_n, sizeof *e_tw); e_cnt = calloc(e_n, 1);
+  fiber_t** fs = calloc(e_n, sizeof *fs);
+  fiber_manager_init(nthreads);
+  nfib = 0;
+  /* ticks start only when every sleeper has started, plus a grace period in which the last ones reach the tree */
+  start_driver(1000, 400, 50000, &started, e_n);
+  for (int i = 0; i < e_n; ++i) fs[i] = fiber_create(16384, e_fiber, (void*)(intptr_t)i);
+  for (int i = 0; i < e_n; ++i) fiber_join(fs[i], NULL);
+  atomic_store(&finished, 1);
+  report_and_exit(0);
+  return 0;
+}
+
 /* scenario d: a list of durations through every entry point, one kernel
  * thread or more; `kind a b` triples on the command line.                 */
 static int scn_d(int argc, char** argv) {
@@ -537,6 +585,7 @@ int main(int argc, char** argv) {
     if (!strcmp(s, "b")) return scn_b(argc - 3, argv + 3);
     if (!strcmp(s, "c")) return scn_c(argc - 3, argv + 3);
     if (!strcmp(s, "d")) return scn_d(argc - 3, argv + 3);
+    if (!strcmp(s, "e")) { alarm(120); return scn_e(argc - 3, argv + 3); }
   }
   return 2;
 }
